@@ -519,6 +519,17 @@ def space_algebra(res, on_v):
         n += 1
         if list(Sx.items()) != [("q", d)] or Sx.dim != d or not (Sx == Space({"q": d})):
             on_v("C12|space|named-constructors", "%s%s = %s" % (cls.__name__, args, list(Sx.items())), None, [])
+        # ... and can be copied like any other space (models and conditions holding them are deep-copied and pickled)
+        import copy
+        import pickle
+        for nm, fn in (("deepcopy", copy.deepcopy), ("pickle", lambda z: pickle.loads(pickle.dumps(z)))):
+            n += 1
+            try:
+                C = fn(Sx)
+                if list(C.items()) != [("q", d)] or not (C == Sx):
+                    on_v("C12|space|copy", "%s of %s%s is %s" % (nm, cls.__name__, args, list(C.items())), None, [])
+            except Exception as e:
+                on_v("C12|space|copy-error|%s" % cls.__name__, "%s of %s%s raised %s: %s" % (nm, cls.__name__, args, type(e).__name__, str(e)[:80]), None, [])
     res["states"] = len(sels)
     res["transitions"] = n
     res["evals"] = n
